@@ -525,6 +525,22 @@ Section SetProofs.
         * intros z Hz. apply (contains_spec s z HI). apply H. exact Hz.
   Qed.
 
+  Lemma set_ne_negb : forall s o, set_ne A ltb eqb s o = negb (set_eq A ltb eqb s o).
+  Proof.
+    intros s [l|l]; cbn [set_ne set_eq]; [reflexivity|].
+    rewrite negb_andb. f_equal. induction l as [|x l IH]; cbn; [reflexivity|].
+    rewrite negb_andb, IH. reflexivity.
+  Qed.
+
+  Lemma set_ne_spec : forall s o, Inv s -> operand_ok A o ->
+    (set_ne A ltb eqb s o = true <-> ~ (forall y, In y s <-> oset A o y)).
+  Proof.
+    intros s o HI Hok. rewrite set_ne_negb, negb_true_iff. rewrite <- (set_eq_spec s o HI Hok).
+    destruct (set_eq A ltb eqb s o).
+    - split; [discriminate|intro H; exfalso; apply H; reflexivity].
+    - split; [intros _ C; discriminate|reflexivity].
+  Qed.
+
   Lemma proper_len : forall i s : list A, NoDup i -> NoDup s -> incl i s ->
     (length i < length s <-> exists z, In z s /\ ~ In z i).
   Proof.
@@ -609,6 +625,7 @@ Section SetProofs.
     - cbn. split; [exact HI|]. split; [reflexivity|]. eexists. split; [reflexivity|]. apply issuperset_spec; assumption.
     - cbn. split; [exact HI|]. split; [reflexivity|]. eexists. split; [reflexivity|]. apply isdisjoint_spec.
     - cbn. split; [exact HI|]. split; [reflexivity|]. eexists. split; [reflexivity|]. apply set_eq_spec; assumption.
+    - cbn. split; [exact HI|]. split; [reflexivity|]. eexists. split; [reflexivity|]. apply set_ne_spec; assumption.
     - cbn. split; [exact HI|]. split; [reflexivity|]. eexists. split; [reflexivity|]. apply set_lt_spec; assumption.
     - cbn. split; [exact HI|]. split; [reflexivity|]. eexists. split; [reflexivity|]. apply set_gt_spec; assumption.
     - (* getitem *) destruct (norm_index (length s) i) as [j|] eqn:E.
@@ -638,6 +655,28 @@ Section SetProofs.
   Proof.
     induction ops as [|o ops IH]; intros s HI Hok; cbn; [exact HI|].
     inversion Hok; subst. apply IH; [|assumption]. apply (step_spec s o HI H1).
+  Qed.
+
+  Lemma copy_of_id : forall how s, copy_of A ltb eqb how s = s.
+  Proof. intros [] s; reflexivity. Qed.
+
+  Lemma step2_spec : forall st o, Inv (fst st) -> Inv (snd st) -> op2_ok A o ->
+    Inv (fst (fst (step2 A ltb eqb st o))) /\ Inv (snd (fst (step2 A ltb eqb st o))) /\
+    spec2 A ltb st o (fst (step2 A ltb eqb st o)) (snd (step2 A ltb eqb st o)).
+  Proof.
+    intros [s c] o Hs Hc Hok. cbn [fst snd] in *. destruct o as [o|how|o]; cbn [step2 spec2 op2_ok fst snd] in *.
+    - destruct (step_spec s o Hs Hok) as [H1 H2]. destruct (step A ltb eqb s o) as [s' r]. cbn [fst snd] in *.
+      split; [exact H1|]. split; [exact Hc|]. split; [exact H2|reflexivity].
+    - rewrite copy_of_id. cbn [fst snd]. split; [exact Hs|]. split; [exact Hs|]. split; reflexivity.
+    - destruct (step_spec c o Hc Hok) as [H1 H2]. destruct (step A ltb eqb c o) as [c' r]. cbn [fst snd] in *.
+      split; [exact Hs|]. split; [exact H1|]. split; [exact H2|reflexivity].
+  Qed.
+
+  Lemma run2_ok_all : forall ops st, Inv (fst st) -> Inv (snd st) -> Forall (op2_ok A) ops -> run2_ok A ltb eqb st ops.
+  Proof.
+    induction ops as [|o ops IH]; intros st Hs Hc Hok; cbn [run2_ok]; [exact I|].
+    inversion Hok; subst. destruct (step2_spec st o Hs Hc H1) as [A1 [A2 A3]].
+    split; [exact A1|]. split; [exact A2|]. split; [exact A3|]. apply IH; assumption.
   Qed.
 
   Lemma iteration_ascending : forall s, Inv s -> forall i j u v, i < j ->
